@@ -54,6 +54,7 @@ DATES = (date(1, 1, 1), date(1970, 1, 1), date(2024, 2, 29), date(9999, 12, 31))
 TIMES = (time(0, 0), time(23, 59, 59, 999999), time(12, 30, 15), time(1, 2, 3, 4, tzinfo=timezone.utc), time(5, 6, tzinfo=timezone(timedelta(hours=-3, minutes=-30))))
 def sel_datetime(d, t): return datetime.combine(DATES[pick(d, 4)], TIMES[pick(t, 5)])
 PATTERNS = ("", "a", "a|b", "[a-z]+", chr(92) + "d{2}", "(?P<x>a)")
+FLAGS = (re.IGNORECASE, re.MULTILINE | re.DOTALL, re.VERBOSE, re.ASCII)
 '''
 
 L2 = '''
@@ -182,17 +183,55 @@ def ktd(mode, bound):
 def chk_replay(n):
     td = timedelta(microseconds=n)
     return TD_LOADER(TD_DUMPER(td)) == td
+TD_MAX_US = (timedelta.max.days * 86400 + timedelta.max.seconds) * 10 ** 6 + timedelta.max.microseconds
+def ktd_beyond(lo):
+    """the rest of the value space: lo <= n <= timedelta.max.  The relaxed model is asked for counterexamples; each is replayed natively (a model of
+    the over-approximation may be spurious), up to 40 models."""
+    import time, z3
+    from vf.smt import ktd as K
+    t0 = time.time()
+    ev = K.RelaxedEval(TD_LOADER)
+    n = z3.Int("n")
+    x = ev.fl(z3.ToReal(n) / 1000000)
+    out = ev.run(x)
+    s = z3.Solver(); s.set("timeout", 60000)
+    s.add(n >= lo, n <= TD_MAX_US, *ev.side)
+    s.add(out != n)
+    q = 0
+    rec = {"functions_encoded": ["morphing/concrete_provider.py:SecondsTimedeltaProvider._make_loader.<locals>.timedelta_loader"],
+           "backend": "z3 LRA+LIA with the standard model of IEEE rounding; every model replayed natively"}
+    while q < 40:
+        q += 1
+        r = str(s.check())
+        if r != "sat":
+            rec.update(status="CONFIRMED" if r == "unsat" and q == 1 else "UNKNOWN", detail="solver %s after %d models" % (r, q - 1)); break
+        v = s.model()[n].as_long()
+        try: ok = chk_replay(v)
+        except Exception: ok = False
+        if not ok:
+            rec.update(status="REFUTED", cex={"n": str(v)}); break
+        s.add(n != v, n >= v + 999983)            # move on through the range
+    else:
+        rec.update(status="UNKNOWN", detail="40 models of the relaxed query did not replay")
+    rec.update(solver_queries=q, solver_s=round(time.time() - t0, 3), evaluations=q)
+    return rec
+def chk_beyond(n):
+    try: return chk_replay(n)
+    except Exception: return False
 '''
 
 
 def ktd_module(tier):
     m = Module("c01_ktd").pre(KTD)
-    bound = 2 ** 47 if tier == "quick" else 2 ** 51
+    bound = 2 ** 51 if tier == "quick" else 4502955548370931          # 0.99986 * 2**52: the largest bound the relaxed model decides (binary search)
     for name, mode, b, what in (("ktd_relaxed", "relaxed", bound, f"|n| <= {bound} microseconds (all counts; standard rounding model, sound over-approximation of binary64)"),
                                 ("ktd_bitprecise", "bitprecise", 256, "|n| <= 256 microseconds, bit-precise QF_FPBV (cross-check of the encoding)")):
         m.fns.append(f"def smt_{name}():\n    return ktd({mode!r}, {b})\n\ndef chk_{name}(n):\n    return chk_replay(n)\n")
         m.obs.append(Ob(name=name, module=m.key, kind="smt", timeout=300, family="E2 K-td: timedelta dump/load round trip over integer microsecond counts (z3)",
                         bounds=what))
+    m.fns.append(f"def smt_ktd_beyond():\n    return ktd_beyond({bound})\n\ndef chk_ktd_beyond(n):\n    return chk_beyond(n)\n")
+    m.obs.append(Ob(name="ktd_beyond", module=m.key, kind="smt", timeout=300, family="E2 K-td: timedelta dump/load round trip over integer microsecond counts (z3)",
+                    bounds=f"{bound} <= n <= timedelta.max in microseconds: the rest of the value space (known finding: float seconds cannot carry it)"))
     return m
 
 
@@ -229,6 +268,8 @@ def chk_{name}({args}):
     natob("datetime", "rt(datetime, sel_datetime(d, t), True) and rt(date, sel_datetime(d, t).date(), True) and rt(time, sel_datetime(d, t).timetz(), True)",
           (4, 5), ["d", "t"], "4 dates x 5 times (naive, utc, negative offset); json leg")
     natob("pattern", "all(LD[(re.Pattern, k)](DP[(re.Pattern, k)](re.compile(PATTERNS[i]))) == re.compile(PATTERNS[i]) for k in RS)", (6,), ["i"], "6 patterns")
+    natob("pattern_flags", "all(LD[(re.Pattern, k)](DP[(re.Pattern, k)](re.compile(PATTERNS[i + 1], FLAGS[f]))) == re.compile(PATTERNS[i + 1], FLAGS[f]) for k in RS)", (5, 4), ["i", "f"],
+          "5 patterns x 4 flag sets (IGNORECASE, MULTILINE | DOTALL, VERBOSE, ASCII): known finding, the dumped form is the pattern text only")
     m2 = Module("c01_l2").pre(L2)
     fam2 = "L2 combinator pairs with an inverse stub pair (dump x -> n+1, load y -> Stub(y-1))"
     for name in ["List", "TupleVar", "Deque", "Sequence", "Iterable", "MutableSequence", "Collection", "Reversible"]:
